@@ -88,6 +88,12 @@ def mkMessage (args : List String) : Option (Message TB) :=
       | .ok _ m => some m
       | _ => none
     | none => none
+  | ["chnew", sid, ext] =>
+    -- a constructed ClientHello (`TlsClientHelloContents::new`): `none` | `-` (present but empty) | hex
+    let o (x : String) : Option (Option (List TB)) := if x == "none" then some none else (decodeHex x).map some
+    match o sid, o ext with
+    | some sid, some ext => some (.handshake (.clientHello ⟨0x0303, List.replicate 32 (7, 0), sid, [0x2f], [0], ext⟩))
+    | _, _ => none
   | ["ccs"] => some .changeCipherSpec
   | ["alert", s, d] => match s.toNat?, d.toNat? with
     | some s, some d => some (.alert s d)
